@@ -20,7 +20,7 @@ pub fn run(run: &mut Run) {
         .into();
     run.assumptions = vec!["'animated-and-keyframed set' is computed from the generated specification".into()];
     run.min_sigs = 40;
-    let n: u64 = if run.thorough() { 2_000_000 } else { 60_000 };
+    let n: u64 = if run.thorough() { 2_000_000 } else { 400_000 };
     let seed = run.seed;
     let rc = run.replay_case();
     run.parallel(|w, nw, acc| {
